@@ -169,11 +169,19 @@ prop("C17", "exploration",
      "generated directory trees (depth <= 4, hidden files and directories, .lck files, .disabled at root or below, empty files, absolute symlinks to files "
      "and directories, files on both sides of the minimum age) scanned by store.Local with generated include / ignore sets, include-hidden, "
      "follow-symlinks and a non-HTTP tag pattern; oracle = eligibility predicate written from the statement; non-trivial = a tree with eligible and "
-     "ineligible files where a pattern or the age decides",
-     [dict(pkg="storex", test="TestC17Scan", world="W0", quick=6000, thorough=200000, required_classes=["symlink-to-file", "disabled-at-root"])],
+     "ineligible files where a pattern or the age decides. Histories (W1): 1-4 source files plus hidden / locked / empty files; up to 70 steps of serve, "
+     "wait, add / rewrite / append / touch, and replacing a file by a same-size file with an EARLIER modification time, between and during scans, "
+     "hashing and transmission; oracle = after a quiet period the current version of every name was transmitted in full, no version is delivered twice "
+     "without a failed verdict, no arrival is a mixture (arrival monitor), ineligible files neither transmitted nor touched; non-trivial = a change made "
+     "while requests were outstanding",
+     [dict(pkg="storex", test="TestC17Scan", world="W0", quick=6000, thorough=200000, required_classes=["symlink-to-file", "disabled-at-root"]),
+      dict(pkg="stagex", test="TestC17Sim", world="W1", quick=1000, thorough=40000, per_proc=60, shrink_runs=150,
+           required_classes=["replaced-by-older-file", "change-during-transmission"])],
      ["file ages are 5 min / 3 h against a minimum age of 0 / 2 h, so the wall clock cannot flip a verdict",
       "for a symlink the statement does not say whose age counts; without link following the link's own time is used, with link following the target's",
-      "histories (rewrite, append, touch, replace during scans and transmission) and 'each version once' are not covered by this unit"])
+      "the history unit runs in the simulation world (real Broker, store, cache, queue, payload, stage; harness-owned transport); whether a version that "
+      "was sent again is then delivered is C03's subject (two versions of a name in flight: see C03's finding)",
+      "a rewrite keeping both size and modification time is undetectable by design and not generated"])
 
 SIM_ASSUME = [
     "simulation world W1: real client.Broker, store.Local, cache.JSON, queue.Tagged, payload.Bin (real encoder and decoder on every payload), "
@@ -359,9 +367,9 @@ MANIFEST_TEXT["C19"] = dict(
          "about the running sender applying each tag's settings to matching files is NOT decided by this check.",
     note="Configuration documents are generated from an abstract model (option present / absent / explicit zero); parsed through sts.NewConf on temp files.")
 MANIFEST_TEXT["C17"] = dict(
-    technique="property-based testing (rapid): generated directory trees and filter settings vs. a reference eligibility predicate",
-    text="Decides the 'queued if and only if eligible' clause for a single scan of a generated tree. The history clauses (changed files sent again, "
-         "unchanged ones not, one complete version) are not decided by this unit.",
+    technique="property-based testing (rapid): generated directory trees and filter settings vs. a reference eligibility predicate; stateful generation of source-directory histories in a deterministic simulation",
+    text="The 'queued if and only if eligible' clause is decided for single scans of generated trees; the history clauses (changed files sent again, "
+         "unchanged ones not, one complete version, ineligible files untouched) by generated histories against the real sender and receiver.",
     note="Real temp directories, real store.Local.Scan with the same allow callback shape as the sender (size > 0).")
 
 SIM_NOTE = ("Real sender and receiver components wired together by the harness inside one testing/synctest bubble per process; the transport is the "
